@@ -39,12 +39,12 @@ func isNowUnix(v ssa.Value) bool {
 
 // primNotExpiredEpoch: <typ>.Expiration >= now (as produced by the reject branch `Expiration < now`)
 func primNotExpiredEpoch(typ string) km.Prim {
-	return km.Prim{Name: "exp >= now", Direct: func(f km.Fact) bool {
+	return km.Prim{Name: "exp >= now", Rel: func(f km.Fact, resolve func(ssa.Value) ssa.Value) bool {
 		switch f.Op {
 		case token.GEQ, token.GTR:
-			return fieldLoadOf(f.X, typ, "Expiration") && isNowUnix(f.Y)
+			return fieldLoadOf(resolve(f.X), typ, "Expiration") && isNowUnix(f.Y)
 		case token.LEQ, token.LSS:
-			return fieldLoadOf(f.Y, typ, "Expiration") && isNowUnix(f.X)
+			return fieldLoadOf(resolve(f.Y), typ, "Expiration") && isNowUnix(f.X)
 		}
 		return false
 	}}
@@ -232,41 +232,51 @@ func checkC04(c *km.Ctx) {
 			// composite literals), and constants established by equality facts at the Claims call
 			if u, ok := v.(*ssa.UnOp); ok {
 				collectConstFieldStores(u.X, st, p.consts, 0)
-				for _, k := range c.F.At(ci) {
-					_ = k
-				}
 				stt := c.F.At(ci)
 				if len(stt) > 0 {
-					// a field constant holds if every disjunct has field == const with the same const
-					cand := map[string]string{}
-					for i, k := range stt {
-						cur := map[string]string{}
-						for _, f := range k.List() {
+					// a field constant holds if every disjunct establishes field == const with the same const, here or
+					// inside a validation helper the struct was handed to (parameters resolved to this frame)
+					type fc struct{ key, val string }
+					var cands []fc
+					seenC := map[fc]bool{}
+					eqPrim := func(want *fc) km.Prim {
+						return km.Prim{Name: "claims field == constant", Rel: func(f km.Fact, resolve func(ssa.Value) ssa.Value) bool {
 							if f.Op != token.EQL {
-								continue
+								return false
 							}
 							for _, pair := range [][2]ssa.Value{{f.X, f.Y}, {f.Y, f.X}} {
-								base, fld, ok := km.FieldOfLoad(km.Unwrap(pair[0]))
-								if ok && base == u.X {
-									if cs, ok := km.ConstString(pair[1]); ok {
-										cur[jsonKeyByName(st, fld)] = cs
+								base, fld, ok := km.FieldOfLoad(km.Unwrap(resolve(pair[0])))
+								if !ok || resolve(base) != u.X {
+									continue
+								}
+								cs, ok := km.ConstString(resolve(pair[1]))
+								if !ok {
+									continue
+								}
+								got := fc{jsonKeyByName(st, fld), cs}
+								if want == nil {
+									if !seenC[got] {
+										seenC[got] = true
+										cands = append(cands, got)
 									}
+									continue
+								}
+								if got == *want {
+									return true
 								}
 							}
-						}
-						if i == 0 {
-							cand = cur
-						} else {
-							for kk, vv := range cand {
-								if cur[kk] != vv {
-									delete(cand, kk)
-								}
-							}
-						}
+							return false
+						}}
 					}
-					for kk, vv := range cand {
-						if _, has := p.consts[kk]; !has {
-							p.consts[kk] = vv
+					for _, k := range stt {
+						s.Holds(k, eqPrim(nil)) // collects candidates; never true
+					}
+					for i := range cands {
+						w := cands[i]
+						if stt.All(func(k km.Conj) bool { return s.Holds(k, eqPrim(&w)) }) {
+							if _, has := p.consts[w.key]; !has {
+								p.consts[w.key] = w.val
+							}
 						}
 					}
 				}
@@ -298,12 +308,12 @@ func checkC04(c *km.Ctx) {
 		}
 		// discriminator: a string field with json key type/token_type compared with a constant (or a parameter bound to constants)
 		discKey, discVals := "", []string{}
-		discPrim := km.Prim{Name: "kind discriminator == constant", Direct: func(f km.Fact) bool {
+		discPrim := km.Prim{Name: "kind discriminator == constant", Rel: func(f km.Fact, resolve func(ssa.Value) ssa.Value) bool {
 			if f.Op != token.EQL {
 				return false
 			}
 			for _, pair := range [][2]ssa.Value{{f.X, f.Y}, {f.Y, f.X}} {
-				base, fld, ok := km.FieldOfLoad(km.Unwrap(pair[0]))
+				base, fld, ok := km.FieldOfLoad(km.Unwrap(resolve(pair[0])))
 				if !ok || km.NamedTypeOf(base.Type()) != cons.typ {
 					continue
 				}
@@ -311,13 +321,15 @@ func checkC04(c *km.Ctx) {
 				if jk != "type" && jk != "token_type" {
 					continue
 				}
-				if cs, ok := km.ConstString(pair[1]); ok {
+				// the wanted kind, seen from the consumer's frame when the comparison sits in a helper
+				want := resolve(pair[1])
+				if cs, ok := km.ConstString(want); ok {
 					discKey = jk
 					discVals = appendUniq(discVals, cs)
 					return true
 				}
-				if p, ok := km.Unwrap(pair[1]).(*ssa.Parameter); ok {
-					vals, all := paramConstStrings(c, p)
+				if p, ok := km.Unwrap(want).(*ssa.Parameter); ok {
+					vals, all := paramConstStrings(c, p, 0)
 					if all && len(vals) > 0 {
 						discKey = jk
 						for _, v := range vals {
@@ -331,7 +343,7 @@ func checkC04(c *km.Ctx) {
 		}}
 		needIssuer := cons.typ == KMD+".authInfoJWT" || cons.typ == KMD+".storageStringDataJWT" || cons.typ == KMD+".bearerAccessToken"
 		needAudNbf := cons.typ == KMD+".authInfoJWT" || cons.typ == KMD+".storageStringDataJWT"
-		issuerPrim := km.Prim{Name: "iss == idpGetIssuer()", Direct: func(f km.Fact) bool {
+		issuerPrim := km.Prim{Name: "iss == idpGetIssuer()", Rel: func(f km.Fact, resolve func(ssa.Value) ssa.Value) bool {
 			if f.Op != token.EQL {
 				return false
 			}
@@ -339,20 +351,20 @@ func checkC04(c *km.Ctx) {
 				cl, ok := km.Unwrap(v).(*ssa.Call)
 				return ok && km.CalleeFull(cl.Common()) == RS+"idpGetIssuer"
 			}
-			return (fieldLoadOf(f.X, cons.typ, "Issuer") && isIss(f.Y)) || (fieldLoadOf(f.Y, cons.typ, "Issuer") && isIss(f.X))
+			return (fieldLoadOf(resolve(f.X), cons.typ, "Issuer") && isIss(f.Y)) || (fieldLoadOf(resolve(f.Y), cons.typ, "Issuer") && isIss(f.X))
 		}}
-		audLen := km.Prim{Name: "len(aud) >= 1", Direct: func(f km.Fact) bool {
+		audLen := km.Prim{Name: "len(aud) >= 1", Rel: func(f km.Fact, resolve func(ssa.Value) ssa.Value) bool {
 			cl, ok := f.X.(*ssa.Call)
 			if !ok {
 				return false
 			}
-			if b, ok := cl.Common().Value.(*ssa.Builtin); !ok || b.Name() != "len" || !fieldLoadOf(cl.Common().Args[0], cons.typ, "Audience") {
+			if b, ok := cl.Common().Value.(*ssa.Builtin); !ok || b.Name() != "len" || !fieldLoadOf(resolve(cl.Common().Args[0]), cons.typ, "Audience") {
 				return false
 			}
 			i, ok := km.ConstInt(f.Y)
 			return ok && ((f.Op == token.GEQ && i == 1) || (f.Op == token.GTR && i == 0))
 		}}
-		aud0 := km.Prim{Name: "aud[0] == idpGetIssuer()", Direct: func(f km.Fact) bool {
+		aud0 := km.Prim{Name: "aud[0] == idpGetIssuer()", Rel: func(f km.Fact, resolve func(ssa.Value) ssa.Value) bool {
 			if f.Op != token.EQL {
 				return false
 			}
@@ -366,7 +378,7 @@ func checkC04(c *km.Ctx) {
 					return false
 				}
 				i, ok := km.ConstInt(ia.Index)
-				return ok && i == 0 && fieldLoadOf(ia.X, cons.typ, "Audience")
+				return ok && i == 0 && fieldLoadOf(resolve(ia.X), cons.typ, "Audience")
 			}
 			isIss := func(v ssa.Value) bool {
 				cl, ok := km.Unwrap(v).(*ssa.Call)
@@ -374,12 +386,12 @@ func checkC04(c *km.Ctx) {
 			}
 			return (isAud0(f.X) && isIss(f.Y)) || (isAud0(f.Y) && isIss(f.X))
 		}}
-		nbf := km.Prim{Name: "nbf <= now", Direct: func(f km.Fact) bool {
+		nbf := km.Prim{Name: "nbf <= now", Rel: func(f km.Fact, resolve func(ssa.Value) ssa.Value) bool {
 			switch f.Op {
 			case token.LEQ:
-				return fieldLoadOf(f.X, cons.typ, "NotBefore") && isNowUnix(f.Y)
+				return fieldLoadOf(resolve(f.X), cons.typ, "NotBefore") && isNowUnix(f.Y)
 			case token.GEQ:
-				return fieldLoadOf(f.Y, cons.typ, "NotBefore") && isNowUnix(f.X)
+				return fieldLoadOf(resolve(f.Y), cons.typ, "NotBefore") && isNowUnix(f.X)
 			}
 			return false
 		}}
@@ -571,7 +583,10 @@ func appendUniq(l []string, s string) []string {
 }
 
 // paramConstStrings: the constant strings passed for parameter p at all call sites (all=false if any is not constant).
-func paramConstStrings(c *km.Ctx, p *ssa.Parameter) ([]string, bool) {
+func paramConstStrings(c *km.Ctx, p *ssa.Parameter, depth int) ([]string, bool) {
+	if depth > 3 {
+		return nil, false
+	}
 	fn := p.Parent()
 	idx := -1
 	for i, q := range fn.Params {
@@ -590,11 +605,22 @@ func paramConstStrings(c *km.Ctx, p *ssa.Parameter) ([]string, bool) {
 			return nil, false
 		}
 		a := km.CallArgs(ci.Common())
-		cst, ok := km.ConstString(a[idx])
-		if !ok {
+		if cst, ok := km.ConstString(a[idx]); ok {
+			out = appendUniq(out, cst)
+			continue
+		}
+		// handed on from the caller's own parameter
+		q, isParam := km.Unwrap(a[idx]).(*ssa.Parameter)
+		if !isParam {
 			return nil, false
 		}
-		out = appendUniq(out, cst)
+		more, all := paramConstStrings(c, q, depth+1)
+		if !all {
+			return nil, false
+		}
+		for _, m := range more {
+			out = appendUniq(out, m)
+		}
 	}
 	sort.Strings(out)
 	return out, true
